@@ -297,8 +297,19 @@ func init() {
 		"errors.Is":                  errorsIs,
 		"os.LookupEnv":               func(fr *frame, args []value) value { v := fr.i.getenv(args[0]); return tuple{v, strLen(v) > 0} },
 		"syscall.Getenv":             func(fr *frame, args []value) value { v := fr.i.getenv(args[0]); return tuple{v, strLen(v) > 0} },
-		"(*os.File).Write":       func(fr *frame, args []value) value { return tuple{len(args[1].([]value)), iface{}} },
-		"(*os.File).WriteString": func(fr *frame, args []value) value { return tuple{strLen(args[1]), iface{}} },
+		"(*os.File).Write": func(fr *frame, args []value) value {
+			data := args[1].([]value)
+			if _, n := fr.i.openFile(args[0]); n != nil {
+				n.data = append(n.data, data...)
+			}
+			return tuple{len(data), iface{}}
+		},
+		"(*os.File).WriteString": func(fr *frame, args []value) value {
+			if _, n := fr.i.openFile(args[0]); n != nil {
+				n.data = append(n.data, strBytes(args[1])...)
+			}
+			return tuple{strLen(args[1]), iface{}}
+		},
 		"(*os.File).Close":       func(fr *frame, args []value) value { return iface{} },
 		"(*os.File).Sync":        func(fr *frame, args []value) value { return iface{} },
 		"(*log.Logger).Output":   func(fr *frame, args []value) value { return iface{} },
